@@ -1,5 +1,7 @@
 package main
 
+import "strings"
+
 func init() {
 	register(&propInfo{
 		ID:          "C13",
@@ -37,6 +39,10 @@ func init() {
 			rulePresenceFlag(c)
 			rulePresenceStore(c)
 			ruleSkipAfterTag(c)
+			ruleWalkerEntry(c)
+			// the walker's own guards are exact, and the outputter's table accesses are in range for every depth
+			ruleTightGuards(c, decodeBound(c.P), func(n string) bool { return strings.Contains(n, "Descriptor.") })
+			ruleJOutBounds(c)
 			ruleLookupStateless(c, []string{"plenccodec.Descriptor.readAsStruct"})
 		},
 	})
